@@ -314,6 +314,28 @@ impl Default for GeneratorOptions {
     }
 }
 
+/// Verification hook (`--cfg fast_tlsh_verif`): the concrete state of
+/// a generator, exported / imported by [`GeneratorType::verif_export()`] and
+/// [`GeneratorType::verif_import()`].
+#[cfg(fast_tlsh_verif)]
+#[derive(Debug, Clone, PartialEq, Eq)]
+pub struct VerifGeneratorState {
+    /// The effective buckets (first `num_buckets` entries; the rest is zero).
+    pub buckets: [u32; 256],
+    /// The number of effective buckets.
+    pub num_buckets: usize,
+    /// The `len` field.
+    pub len: u32,
+    /// The checksum (first `checksum_len` entries; the rest is zero).
+    pub checksum: [u8; 3],
+    /// The size of the checksum.
+    pub checksum_len: usize,
+    /// The `tail` field.
+    pub tail: [u8; WINDOW_SIZE - 1],
+    /// The `tail_len` field.
+    pub tail_len: u32,
+}
+
 /// The public part for later `pub use` at crate root.
 pub(crate) mod public {
     use super::*;
@@ -378,6 +400,14 @@ pub(crate) mod public {
         /// Tests: count non-zero buckets.
         #[cfg(test)]
         fn count_nonzero_buckets(&self) -> usize;
+
+        /// Verification hook: export the concrete state.
+        #[cfg(fast_tlsh_verif)]
+        fn verif_export(&self) -> VerifGeneratorState;
+
+        /// Verification hook: overwrite the concrete state.
+        #[cfg(fast_tlsh_verif)]
+        fn verif_import(&mut self, state: &VerifGeneratorState);
     }
 }
 
@@ -708,6 +738,34 @@ pub(crate) mod inner {
             let buckets: [u32; SIZE_BUCKETS] = self.buckets.data().try_into().unwrap();
             buckets.iter().filter(|&&x| x != 0).count()
         }
+
+        #[cfg(fast_tlsh_verif)]
+        fn verif_export(&self) -> VerifGeneratorState {
+            let mut buckets = [0u32; 256];
+            buckets[..SIZE_BUCKETS].copy_from_slice(self.buckets.data());
+            let mut checksum = [0u8; 3];
+            checksum[..SIZE_CKSUM].copy_from_slice(self.checksum.data());
+            VerifGeneratorState {
+                buckets,
+                num_buckets: SIZE_BUCKETS,
+                len: self.len,
+                checksum,
+                checksum_len: SIZE_CKSUM,
+                tail: self.tail,
+                tail_len: self.tail_len,
+            }
+        }
+
+        #[cfg(fast_tlsh_verif)]
+        fn verif_import(&mut self, state: &VerifGeneratorState) {
+            self.buckets = FuzzyHashBucketsData::new();
+            self.buckets.buckets[..SIZE_BUCKETS].copy_from_slice(&state.buckets[..SIZE_BUCKETS]);
+            let checksum: [u8; SIZE_CKSUM] = state.checksum[..SIZE_CKSUM].try_into().unwrap();
+            self.checksum = FuzzyHashChecksumData::from_raw(&checksum);
+            self.len = state.len;
+            self.tail = state.tail;
+            self.tail_len = state.tail_len;
+        }
     }
 }
 
@@ -770,6 +828,16 @@ impl<T: ConstrainedFuzzyHashType> GeneratorType for Generator<T> {
     #[cfg(test)]
     fn count_nonzero_buckets(&self) -> usize {
         self.inner.count_nonzero_buckets()
+    }
+
+    #[cfg(fast_tlsh_verif)]
+    fn verif_export(&self) -> VerifGeneratorState {
+        self.inner.verif_export()
+    }
+
+    #[cfg(fast_tlsh_verif)]
+    fn verif_import(&mut self, state: &VerifGeneratorState) {
+        self.inner.verif_import(state)
     }
 }
 
